@@ -17,7 +17,7 @@ from hypothesis import strategies as st
 
 from .. import ast as A
 from ..runner import Outcome, fail, open_features
-from ..strategies import Cfg, query_case, Ctx, int_term, ent_term, chance
+from ..strategies import Cfg, query_case, Ctx, int_term, ent_term, chance, leaf
 from ..world import build_entities, CLASSES, CONSTRUCTED
 from ..build import declare_vars, build_infer
 from ..qcheck import satisfying, case_features, render_query, ident
@@ -80,6 +80,17 @@ def _case(draw, tier):
         if chance(draw, 2, 3):
             args.append(["tag", value_term(draw(st.integers(0, 1)))])
         head = {"cls": "Pair", "args": args}
+    if nv == 2 and chance(draw, 1, 5):
+        # a sub-query as a constructor argument: Pair(left=x, right=an(entity(y, c(x, y) | c'(y))))
+        sc = ["or", "nary", [leaf(draw, ctx, draw(st.sampled_from([[0, 1], [1]]))), leaf(draw, ctx, [1])]]
+        if draw(st.booleans()):
+            sc = leaf(draw, ctx, draw(st.sampled_from([[0, 1], [1]])))
+        head["args"][1][1] = ["subq", 1, sc]
+    elif chance(draw, 1, 5):
+        # a nested sub-query among the conditions of the rule body, with a disjunction of its own
+        v = draw(st.integers(0, nv - 1))
+        sc = ["or", "nary", [leaf(draw, ctx, [v] if nv == 1 else draw(st.sampled_from([[0, 1], [v]]))), leaf(draw, ctx, [v])]]
+        c["cond"] = ["and", "nary", [c["cond"], ["sub", "entity", [v], sc]]]
     head["positional"] = draw(st.booleans())
     c["head"] = head
     c["infer_style"] = draw(st.sampled_from(["infer_entity", "infer_direct", "an_in_rule_mode"]))
@@ -96,7 +107,11 @@ def check(case) -> Outcome:
     feats = case_features(case)
     head = case["head"]
     cls = CLASSES[head["cls"]]
-    sat = satisfying(case, objs)
+    # a sub-query among the constructor arguments restricts that argument to its solutions: for the reference its
+    # condition is one more condition of the rule
+    subq_conds = [t[2] for _, t in head["args"] if t[0] == "subq"]
+    ref_case = case if not subq_conds else dict(case, cond=["and", "nary", [case["cond"]] + subq_conds])
+    sat = satisfying(ref_case, objs)
     n_all = 1
     from ..qcheck import var_domains
     for d in var_domains(case, objs):
@@ -117,6 +132,10 @@ def check(case) -> Outcome:
         classes.append("const_arg")
     if any(t[0] not in ("var", "const") for _, t in head["args"]):
         classes.append("expression_arg")
+    if subq_conds:
+        classes.append("subquery_arg")
+    if A.has_kind(case["cond"], "sub"):
+        classes.append("subquery_in_body")
     if unconstrained:
         feats.append("head_var_not_in_body")
     def _judge(res, built, earlier, attempt):
@@ -156,8 +175,8 @@ def check(case) -> Outcome:
     except Exception as e:
         return fail("exception", f"building: {type(e).__name__}: {e}", nontrivial=nontrivial, classes=classes, features=feats)
     earlier = []
-    # the same rule object is evaluated twice: EVERY evaluation constructs one new instance per satisfying assignment
-    for attempt in (1, 2):
+    # the same rule object is evaluated three times: EVERY evaluation constructs one new instance per satisfying assignment
+    for attempt in (1, 2, 3):
         before = CONSTRUCTED[head["cls"]]
         try:
             res = list(q.evaluate())
